@@ -163,4 +163,59 @@ theorem runOps_eq_chains (ops : List POp) :
     (runOps ops).procs = (runChains ops).procs.map stftDefaults :=
   foldl_pstep_cstep ops .empty .empty rfl rfl
 
+/-! ### the tags of the wrapper's rejections are distinct -/
+
+theorem app_inj (p a b : String) (h : p ++ a = p ++ b) : a = b := by
+  have := congrArg String.toList h
+  simp only [String.toList_append] at this
+  exact String.toList_inj.1 (List.append_cancel_left this)
+/-- first character of a tag -/
+def hd (s : String) : Option Char := s.toList.head?
+theorem hd_ola (k : String) : hd ("ola-option-without-ola:" ++ k) = some 'o' := by
+  simp [hd, String.toList_append]
+theorem hd_unk (k : String) : hd ("unknown-key:" ++ k) = some 'u' := by
+  simp [hd, String.toList_append]
+theorem hd_ms : hd "missing-size" = some 'm' := by decide
+theorem hd_hg : hd "hop-gt-size" = some 'h' := by decide
+theorem hd_hn : hd "hop-not-comparable" = some 'h' := by decide
+theorem hd_ne (a b : String) (x y : Option Char) (ha : hd a = x) (hb : hd b = y) (hxy : x ≠ y) : a ≠ b := by
+  intro e; subst e; exact hxy (ha.symm.trans hb)
+theorem PlanErr.tag_inj (e e' : PlanErr) (h : e.tag = e'.tag) : e = e' := by
+  cases e with
+  | missingSize =>
+    cases e' with
+    | missingSize => rfl
+    | hopGtSize => exact absurd h (hd_ne _ _ _ _ hd_ms hd_hg (by decide))
+    | hopNotComparable => exact absurd h (hd_ne _ _ _ _ hd_ms hd_hn (by decide))
+    | olaOptionWithoutOla k => exact absurd h (hd_ne _ _ _ _ hd_ms (hd_ola k) (by decide))
+    | unknownKey k => exact absurd h (hd_ne _ _ _ _ hd_ms (hd_unk k) (by decide))
+  | hopGtSize =>
+    cases e' with
+    | missingSize => exact absurd h (hd_ne _ _ _ _ hd_hg hd_ms (by decide))
+    | hopGtSize => rfl
+    | hopNotComparable => exact absurd h (by decide)
+    | olaOptionWithoutOla k => exact absurd h (hd_ne _ _ _ _ hd_hg (hd_ola k) (by decide))
+    | unknownKey k => exact absurd h (hd_ne _ _ _ _ hd_hg (hd_unk k) (by decide))
+  | hopNotComparable =>
+    cases e' with
+    | missingSize => exact absurd h (hd_ne _ _ _ _ hd_hn hd_ms (by decide))
+    | hopGtSize => exact absurd h (by decide)
+    | hopNotComparable => rfl
+    | olaOptionWithoutOla k => exact absurd h (hd_ne _ _ _ _ hd_hn (hd_ola k) (by decide))
+    | unknownKey k => exact absurd h (hd_ne _ _ _ _ hd_hn (hd_unk k) (by decide))
+  | olaOptionWithoutOla k0 =>
+    cases e' with
+    | missingSize => exact absurd h (hd_ne _ _ _ _ (hd_ola k0) hd_ms (by decide))
+    | hopGtSize => exact absurd h (hd_ne _ _ _ _ (hd_ola k0) hd_hg (by decide))
+    | hopNotComparable => exact absurd h (hd_ne _ _ _ _ (hd_ola k0) hd_hn (by decide))
+    | olaOptionWithoutOla k => rw [app_inj "ola-option-without-ola:" k0 k h]
+    | unknownKey k => exact absurd h (hd_ne _ _ _ _ (hd_ola k0) (hd_unk k) (by decide))
+  | unknownKey k0 =>
+    cases e' with
+    | missingSize => exact absurd h (hd_ne _ _ _ _ (hd_unk k0) hd_ms (by decide))
+    | hopGtSize => exact absurd h (hd_ne _ _ _ _ (hd_unk k0) hd_hg (by decide))
+    | hopNotComparable => exact absurd h (hd_ne _ _ _ _ (hd_unk k0) hd_hn (by decide))
+    | olaOptionWithoutOla k => exact absurd h (hd_ne _ _ _ _ (hd_unk k0) (hd_ola k) (by decide))
+    | unknownKey k => rw [app_inj "unknown-key:" k0 k h]
+
 end ALV.C09
